@@ -86,6 +86,31 @@ pub proof fn lemma_line_char(idx: Seq<int>, o: int, r: int)
     if line_post(idx, o, r) { lemma_line_unique(idx, o, r, op_line(idx, o)); }
 }
 
+/// how a binary search over a line index reads as a line number: found at i -> line i + 1, insertion point i -> line i
+pub open spec fn line_of_search(r: Result<usize, usize>) -> int {
+    match r { Ok(i) => i + 1, Err(i) => i as int }
+}
+pub proof fn lemma_search_line(s: Seq<usize>, x: usize, r: Result<usize, usize>)
+    requires is_line_index(ints(s)), binary_search_post(s, x, r),
+    ensures line_post(ints(s), x as int, line_of_search(r)),
+        line_of_search(r) == op_line(ints(s), x as int),
+{
+    let idx = ints(s);
+    match r {
+        Ok(i) => {
+            assert(idx[i as int] == s[i as int]);
+            if i + 1 < s.len() { assert(idx[i as int] < idx[i + 1]); assert(idx[i + 1] == s[i + 1]); }
+        }
+        Err(i) => {
+            assert(idx[0] == s[0]);
+            if i == 0 { assert(ord_lt(x, s[0])); }
+            else { assert(ord_lt(s[i - 1], x)); assert(idx[i - 1] == s[i - 1]); }
+            if i < s.len() { assert(ord_lt(x, s[i as int])); assert(idx[i as int] == s[i as int]); }
+        }
+    }
+    lemma_line_char(idx, x as int, line_of_search(r));
+}
+
 /// what the index built from a text looks like
 pub proof fn lemma_line_index_wf(bytes: Seq<u8>)
     ensures ({
@@ -164,9 +189,9 @@ impl FixtureDatabase {
                 assert(idx[i] < idx[j]);
             }
         }
-        assert(idx[0] == line_index@[0]);
-        assert forall|r: int| line_post(idx, offset as int, r) implies r == op_line(idx, offset as int) by {
-            lemma_line_char(idx, offset as int, r);
+        assert forall|res: Result<usize, usize>| #[trigger] binary_search_post(line_index@, offset, res) implies
+            line_post(idx, offset as int, line_of_search(res)) && line_of_search(res) == op_line(idx, offset as int) by {
+            lemma_search_line(line_index@, offset, res);
         }
     }
 @*/
@@ -229,28 +254,15 @@ pub proof fn lemma_C15_line_col_identify_offset(bytes: Seq<u8>, o: int)
             if k > l { assert(idx[l] < idx[k]); }
         }
     }
-    let y = pos.take(l - 1);
-    let s = bytes.take(o);
-    assert(yields_pos(NL(), s, y)) by {
-        assert forall|k: int| 0 <= k < y.len() implies 0 <= (#[trigger] y[k]) < s.len() && s[y[k]] == NL() by {
-            assert(y[k] == pos[k]);
-            assert(idx[k + 1] == pos[k] + 1);
-            if k + 1 < l - 1 { assert(idx[k + 1] < idx[l - 1]); }
-            assert(bytes[pos[k]] == NL());
-        }
-        assert forall|j: int, k: int| 0 <= j < k < y.len() implies (#[trigger] y[j]) < (#[trigger] y[k]) by {
-            assert(y[j] == pos[j] && y[k] == pos[k]);
-        }
-        assert forall|i: int| 0 <= i < s.len() && (#[trigger] s[i]) == NL() implies y.contains(i) by {
-            assert(bytes[i] == NL());
-            assert(pos.contains(i));
-            let k = choose|k: int| 0 <= k < pos.len() && pos[k] == i;
-            assert(idx[k + 1] == i + 1);
-            if k + 1 > l { assert(idx[l] < idx[k + 1]); }
-            assert(y[k] == i);
-        }
+    assert forall|k: int| 0 <= k < l - 1 implies (#[trigger] pos[k]) < o by {
+        assert(idx[k + 1] == pos[k] + 1);
+        if k + 1 < l - 1 { assert(idx[k + 1] < idx[l - 1]); }
     }
-    lemma_positions_unique(NL(), s, y);
+    assert forall|k: int| l - 1 <= k < pos.len() implies (#[trigger] pos[k]) >= o by {
+        assert(idx[k + 1] == pos[k] + 1);
+        if k + 1 > l { assert(idx[l] < idx[k + 1]); }
+    }
+    lemma_positions_prefix(NL(), bytes, o, l - 1);
 }
 
 /// (b) start is never after end: positions are monotone in the offset (lexicographically), and on one line the
@@ -315,8 +327,7 @@ pub proof fn lemma_C15_position_injective(idx: Seq<int>, o1: int, o2: int)
 {}
 
 /// (d) what the column IS: the number of BYTES between the line start and the offset (not characters, not UTF-16
-/// code units — see canary_column_is_utf16_units, known finding)
-pub uninterp spec fn utf16_len(prefix: Seq<u8>) -> int;
+/// code units — see canary_column_is_utf16_units and lemma_C15_FINDING_column_differs_from_utf16, known finding)
 //@tags C15
 pub proof fn lemma_C15_column_is_byte_count(bytes: Seq<u8>, o: int)
     requires 0 <= o <= bytes.len(),
@@ -328,11 +339,85 @@ pub proof fn lemma_C15_column_is_byte_count(bytes: Seq<u8>, o: int)
         &&& op_col(idx, o) == bytes.subrange(start, o).len()
     }),
 {
+    lemma_line_index_wf(bytes);
     lemma_C15_line_col_identify_offset(bytes, o);
 }
 
+/// UTF-16 code units denoted by a (valid) UTF-8 byte string: a continuation byte (10xxxxxx) contributes nothing, the
+/// leading byte of a 4-byte sequence (a supplementary-plane scalar, i.e. a surrogate pair) two, every other byte one
+pub open spec fn utf16_weight(x: u8) -> int { if 0x80 <= x < 0xC0 { 0 } else if x >= 0xF0 { 2 } else { 1 } }
+pub open spec fn utf16_len(b: Seq<u8>) -> int
+    decreases b.len(),
+{
+    if b.len() == 0 { 0 } else { utf16_len(b.drop_last()) + utf16_weight(b.last()) }
+}
+proof fn lemma_utf16_len_ascii(b: Seq<u8>)
+    requires forall|i: int| 0 <= i < b.len() ==> (#[trigger] b[i]) < 0x80,
+    ensures utf16_len(b) == b.len(),
+    decreases b.len(),
+{
+    if b.len() > 0 {
+        let t = b.drop_last();
+        assert forall|i: int| 0 <= i < t.len() implies (#[trigger] t[i]) < 0x80 by { assert(t[i] == b[i]); }
+        lemma_utf16_len_ascii(t);
+        assert(b.last() == b[b.len() - 1]);
+    }
+}
+/// (d') the byte column IS the protocol's UTF-16 column whenever the text between the line start and the offset is ASCII
+//@tags C15
+pub proof fn lemma_C15_column_is_utf16_when_prefix_ascii(bytes: Seq<u8>, o: int)
+    requires 0 <= o <= bytes.len(),
+        forall|i: int| op_line_index(bytes)[op_line(op_line_index(bytes), o) - 1] <= i < o ==> (#[trigger] bytes[i]) < 0x80,
+    ensures ({
+        let idx = op_line_index(bytes);
+        op_col(idx, o) == utf16_len(bytes.subrange(idx[op_line(idx, o) - 1], o))
+    }),
+{
+    lemma_C15_column_is_byte_count(bytes, o);
+    let idx = op_line_index(bytes);
+    let start = idx[op_line(idx, o) - 1];
+    let p = bytes.subrange(start, o);
+    assert forall|i: int| 0 <= i < p.len() implies (#[trigger] p[i]) < 0x80 by { assert(p[i] == bytes[start + i]); }
+    lemma_utf16_len_ascii(p);
+}
+/// KNOWN FINDING, proved: for the text "\u{e9}x" (bytes C3 A9 78) the offset of `x` gets column 2, its UTF-16 column is 1
+//@tags C15
+pub proof fn lemma_C15_FINDING_column_differs_from_utf16()
+    ensures ({
+        let bytes = seq![0xC3u8, 0xA9u8, 0x78u8];
+        let idx = op_line_index(bytes);
+        &&& op_line(idx, 2) == 1 && op_col(idx, 2) == 2
+        &&& utf16_len(bytes.subrange(idx[op_line(idx, 2) - 1], 2)) == 1
+    }),
+{
+    let bytes = seq![0xC3u8, 0xA9u8, 0x78u8];
+    let idx = op_line_index(bytes);
+    let pos = positions(NL(), bytes);
+    lemma_line_index_wf(bytes);
+    lemma_positions_sound(NL(), bytes);
+    if pos.len() > 0 { assert(bytes[pos[0]] == NL()); }
+    lemma_line_sound(idx, 2);
+    let p = bytes.subrange(0, 2);
+    assert(p.drop_last() =~= seq![0xC3u8]);
+    assert(p.drop_last().drop_last() =~= Seq::<u8>::empty());
+    assert(p.last() == 0xA9u8 && p.drop_last().last() == 0xC3u8);
+    reveal_with_fuel(utf16_len, 3);
+}
+
+// ---- the precondition of the two lookups is what build_line_index establishes (C11: no offset panics) -----------
+//@tags C11
+fn compose_build_then_lookup(db: &FixtureDatabase, content: &str, offset: usize) -> (r: (usize, usize))
+    ensures r.0 == op_line(op_line_index(str_bytes(content)), offset as int),
+        r.1 == op_col(op_line_index(str_bytes(content)), offset as int),
+{
+    let line_index = FixtureDatabase::build_line_index(content);
+    let line = db.get_line_from_offset(offset, &line_index);
+    let col = db.get_char_position_from_offset(offset, &line_index);
+    (line, col)
+}
+
 // ---- vacuity guards: each of these must FAIL ---------------------------------------------------------
-/// KNOWN FINDING (documented, not provable): the column is the UTF-16 length of the line prefix
+/// KNOWN FINDING (not provable, see the proved counterexample above): the column is the UTF-16 length of the line prefix
 proof fn canary_column_is_utf16_units(bytes: Seq<u8>, o: int)
     requires 0 <= o <= bytes.len(),
     ensures ({
